@@ -27,6 +27,13 @@ typedef enum ldb_rectype {
 
 #define LDB_BLOCK_SIZE 32768
 
+#ifdef LCDB_VERIF_SMALL_BLOCK
+/* Verification only: the same framing code with a tiny block, so that
+   every block-boundary case can be enumerated exhaustively. */
+#  undef LDB_BLOCK_SIZE
+#  define LDB_BLOCK_SIZE LCDB_VERIF_SMALL_BLOCK
+#endif
+
 /* Header is checksum (4 bytes), length (2 bytes), type (1 byte). */
 #define LDB_HEADER_SIZE (4 + 2 + 1)
 
